@@ -61,6 +61,7 @@ type baseOpts struct {
 	log       LogOpts
 	big       bool // allow long logs so that reports exceed the 4096-byte writer buffers
 	plainOnly bool
+	longNames bool // allow one food name of 4096..12000 bytes (written straight through a bufio.Writer)
 }
 
 func genCLIBase(t *rapid.T, o baseOpts) CLIBase {
@@ -71,6 +72,22 @@ func genCLIBase(t *rapid.T, o baseOpts) CLIBase {
 		lo.MinDays, lo.MaxDays, lo.Window = 25, 70, 90
 	}
 	b.Log = genLog(t, b.Book, lo)
+	if o.longNames && rapid.IntRange(0, 7).Draw(t, "long_name") == 7 {
+		n := rapid.SampledFrom([]int{4096, 5000, 12000}).Draw(t, "long_name_len")
+		long := strings.Repeat("n", n-4) + "/end"
+		d, i := -1, -1
+		for di := range b.Log {
+			if len(b.Log[di].Items) > 0 {
+				d, i = di, rapid.IntRange(0, len(b.Log[di].Items)-1).Draw(t, "long_name_at")
+				break
+			}
+		}
+		if d >= 0 {
+			b.Log[d].Items[i].Name = long
+		} else {
+			b.Log = append(b.Log, Block{Head: "2021/01/20", Items: []Item{{long, "1"}}})
+		}
+	}
 	if o.plainOnly {
 		b.BookLayout, b.LogLayout = plainLayout, plainLayout
 	} else {
@@ -120,7 +137,7 @@ func genC17(thorough bool) func(t *rapid.T) Case {
 	names := shapeNames(func(s Shape) bool { return s.Report || thorough })
 	return func(t *rapid.T) Case {
 		c := &CaseC17{Only: -1}
-		c.Base = genCLIBase(t, baseOpts{shapes: names, book: BookOpts{MaxRecipes: 6}, log: LogOpts{MaxDays: 5}, big: true, plainOnly: true})
+		c.Base = genCLIBase(t, baseOpts{shapes: names, book: BookOpts{MaxRecipes: 6}, log: LogOpts{MaxDays: 5}, big: true, plainOnly: true, longNames: true})
 		c.SinkKind = rapid.SampledFrom([]string{"ENOSPC", "EPIPE"}).Draw(t, "sink_kind")
 		c.Short = rapid.Bool().Draw(t, "short_write")
 		c.MaxExhaustive = 600
